@@ -72,7 +72,7 @@ def generate(rng, tier, index):
         kw['backoff'] = rng.choice([0.01, 0.1, 0.3])
     if kind == 'udp' and rng.random() < 0.06:
         kw.pop('timeout')           # the UDP client's default: no timeout at all
-    gen = cc.OpGen(rng, framing)
+    gen = cc.OpGen(rng, framing, extended=rng.choice([0.0, 0.0, 0.25, 0.5]))
     unit = rng.choice([1, 1, 2, 17, 0, 255])
     enabled = rng.sample(ALPHABET[2:], rng.randint(1, 4)) + ['reply', 'exception']
     ops = []
